@@ -748,7 +748,29 @@ def rule_sharding_constraint(chk, prog):
   chk.at_least(rule, 6)
 
 
+def rule_shard_offset(chk, prog):
+  """C07.5: the sharded longitude derivative offsets its frequencies by the first wavenumber of its own shard, computed from
+  the *local (padded) block* it actually holds — decided by the layout rule shared with C02.4 (instances re-filed here)."""
+  from sa import report
+  from rules import c02
+  rule = 'C07.5-shard-frequency-offset'
+  probe = report.Check('C07-probe')
+  c02.rule_fourier(probe, prog)
+  keep = [i for i in probe.instances if '_fourier_derivative_for_real_basis_with_zero_imag' in i['key']]
+  if len(keep) < 2:
+    raise AnalysisError('C07: the sharded-derivative instances of the Fourier layout rule were not produced')
+  for i in keep:
+    i = dict(i, rule=rule)
+    chk.instances.append(i)
+    if i['status'] != 'holds':
+      chk.violations.append(i)
+  chk.at_least(rule, 2)
+
+
 def run(chk, prog, tier):
+  from rules import c01 as _c01
+  _c01.rule_shared_state(chk, prog, rule='C07.9-shared-arrays-never-updated-in-place')
+  rule_shard_offset(chk, prog)
   rule_padded(chk, prog)
   rule_shapes(chk, prog)
   rule_vertical_padding(chk, prog)
